@@ -237,6 +237,16 @@ def c01(ctx):
 
 @check("C02")
 def c02(ctx):
+    # B1: exact poses of generic lattice configurations (Gen_Chain) solved by plain inverse
+    consts = {"PSets": "{1, 2, 4}", "Angles": "{1, 2, 5, 10}"} if ctx.quick else {"PSets": "{1, 2, 3, 4, 5}", "Angles": "{1, 2, 4, 7, 10}"}
+    g = tlc(ctx, "Gen_Chain", constants=consts, workers=8, xmx="12g")
+    lines = tlc_json_lines(g["out"], "chain")
+    write_ndjson(ctx.path("chain.ndjson"), lines)
+    opwv(ctx, ["replay", "chainik", ctx.path("chain.ndjson"), ctx.path("chainik.out")])
+    st = replay_results(ctx, ctx.path("chainik.out"), "C02")
+    ctx.evaluations += st.get("evaluations", 0)
+    ctx.traces += st.get("nontrivial", 0)
+    ctx.extra["lattice_configurations_solved"] = st.get("nontrivial", 0)
     ev, viols = solver_trace(ctx, "C02", 12 if ctx.quick else 40)
     solver_report(ctx, ev, viols, "C02")
     return finish(ctx, rule=SOLVER_RULE, assumptions=SOLVER_ASSUME)
